@@ -555,9 +555,7 @@ func (c *FnCtx) convert(v Term, from, to types.Type) Term {
 		return mk(SInt, "int2str", v)
 	case isString(from):
 		if _, ok := to.Underlying().(*types.Slice); ok {
-			base := c.fresh("str2bytes", SInt)
-			c.define(gt(base, tZero))
-			return mkSlice(base, tZero, mk(SInt, "strlen", v), mk(SInt, "strlen", v))
+			return c.g.bytesOfString(c, v)
 		}
 	}
 	// pointer <-> unsafe.Pointer etc.
